@@ -156,8 +156,19 @@ func Driver(root string, p *Prop, tier string, seed int64) int {
 					outs[sh].incon = fmt.Sprintf("worker exited (%v) outside a case: %s", err, firstLine(tail))
 					return
 				}
+				inputNote := ""
+				if ib, ierr := os.ReadFile(prefix + ".input"); ierr == nil && len(ib) > 52 {
+					n, _ := strconv.Atoi(strings.TrimSpace(string(ib[41:51])))
+					if n >= 0 && 52+n <= len(ib) {
+						d := ib[52 : 52+n]
+						if len(d) > 2048 {
+							d = d[:2048]
+						}
+						inputNote = fmt.Sprintf("\ninput on disk before the call [%s, %d bytes]: %x", strings.TrimSpace(string(ib[:40])), n, d)
+					}
+				}
 				outs[sh].fatals = append(outs[sh].fatals, &Violation{Property: p.ID, Tier: tier, Seed: seed, Idx: idx, Fatal: true,
-					Signature: FatalSig(p.ID, tail), Witness: fmt.Sprintf("worker process died (%v) while running this case:\n%s", err, tail)})
+					Signature: FatalSig(p.ID, tail), Witness: fmt.Sprintf("worker process died (%v) while running this case:\n%s%s", err, tail, inputNote)})
 				skip = append(skip, idx)
 			}
 			outs[sh].incon = "worker died repeatedly"
